@@ -99,6 +99,13 @@ func naive(es []ent, a netip.Addr) bool {
 	return false
 }
 
+type keptReply struct {
+	m    *dns.Msg
+	snap string
+}
+
+var viewKept []keptReply
+
 type stub struct {
 	ttl   int
 	calls int
@@ -378,7 +385,7 @@ func exec(op string) vlib.Res {
 		return vlib.Res{Impl: fmt.Sprintf("next=%s written=%s", vlib.B(got), vlib.B(w.Written())), Oracle: or, Tags: "nt"}
 	case "views new":
 		// views new <ents>|<types>;<ents>|<types>;…   types: a+aaaa+txt or none
-		viewEnts, viewTypes = nil, nil
+		viewEnts, viewTypes, viewKept = nil, nil, nil
 		var vcs []config.ViewConfig
 		for i, part := range strings.Split(f[2], ";") {
 			es, ts, _ := strings.Cut(part, "|")
@@ -445,6 +452,20 @@ func exec(op string) vlib.Res {
 		}
 		if (got == "none") != (st.calls == 1) {
 			or = fmt.Sprintf("FAIL sig=views/serve/fallthrough-mismatch got=%s next=%d", got, st.calls)
+		}
+		// a transport may encode the reply only after the chain has returned (DoH,
+		// DoH3 do): what was handed to an earlier client must still be what it was
+		// handed, whatever was served since
+		for _, k := range viewKept {
+			if k.m.String() != k.snap && or == "ok" {
+				or = "FAIL sig=views/serve/earlier-reply-changed-by-a-later-query"
+			}
+		}
+		if w.Written() && st.calls == 0 {
+			if len(viewKept) >= 16 {
+				viewKept = viewKept[1:]
+			}
+			viewKept = append(viewKept, keptReply{w.Msg(), w.Msg().String()})
 		}
 		return vlib.Res{Impl: "view=" + got, Oracle: or, Tags: "nt"}
 	case "dchain new":
